@@ -11,6 +11,7 @@ from pycoin.key.BIP84Node import BIP84Node
 from pycoin.ecdsa.secp256k1 import secp256k1_generator
 
 PROP = "C08"
+EXTRA_PROPS = ["C08compose"]   # composition theorems (see DESIGN.md section 0)
 DRIVER = "C08"
 INTERACTIVE = True
 RULE = ("correspondence: one driver line per call of ContractAPI.for_* / info_for_script / _info_from_multisig_script / match, "
